@@ -272,6 +272,7 @@ func checkDefs() map[string]CheckDef {
 		ID: "C06",
 		Obligations: []Obligation{
 			{Pkg: "internal/verifh/c06", Harness: "VerifC06Sequential", Quick: map[string]int{"n": 2}, Thor: map[string]int{"n": 3}, TV: 6},
+			{Pkg: "internal/verifh/c06", Harness: "VerifC06TwoChannels", Quick: map[string]int{"n": 2}, TV: 6, Note: "sequential proposals by either party on either of two channels of the pair (possibly at the same version); the responder's own context may end while its accept message is on the way"},
 			{Pkg: "internal/verifh/c06", Harness: "VerifC06Concurrent", TV: 6, Note: "deterministic run-to-block schedule"},
 			{Pkg: "internal/verifh/c06", Harness: "VerifC06EarlyUpdate", TV: 6, Note: "first update arriving while 1..2 openings are running on the responder (version-1 cache): handled exactly once"},
 			{Pkg: "internal/verifh/c06", Harness: "VerifC06Concurrent", Sched: true, Quick: map[string]int{"P": 0, "D": 1, "race": 1}, Note: "delay-bounded schedule exploration: every schedule that deviates from the default choice at up to D scheduling decisions (blocking points), happens-before race detection"},
@@ -281,7 +282,7 @@ func checkDefs() map[string]CheckDef {
 			"both clients hold the same channel(s) in phase Acting with an arbitrary fully signed current state; updates are payments of a symbolic amount from the proposer; the responder's handler accepts or rejects by a symbolic decision",
 			"timeouts (5 s proposer, 2 s responder) fire on the virtual clock only when nothing else can run; runs with a timed-out request are only checked for the fully-signed invariant, as the property states",
 			"'at every moment' is checked at quiescence (after each protocol run) and not between individual machine steps"),
-		BoundsText: "sequential: programs of n proposals (n=2 quick, 3 thorough), each by either party, each accepted or rejected; after every run both parties hold the reference state (proposed state on success, unchanged on rejection), fully signed, phase Acting, machine mutex free; success iff the peer's handler accepted, refusal is a PeerRejectedError; concurrent: both parties propose at the same time on one channel or on two channels of the same pair; without timeouts both hold the same state whose version is initial + number of successes and equals the last successful proposal; always: current transactions fully signed; early update: a version-1 update received while 1..2 channel openings are running is cached, handed to the handler exactly once when an opening finishes, answered once, and a rejected one is never accepted later",
+		BoundsText: "sequential: programs of n proposals (n=2 quick, 3 thorough), each by either party, each accepted or rejected; after every run both parties hold the reference state (proposed state on success, unchanged on rejection), fully signed, phase Acting, machine mutex free; success iff the peer's handler accepted, refusal is a PeerRejectedError; two channels: n=2 sequential proposals by either party on either of two channels whose versions may coincide, optionally with the responder's context cancelled while its accept is being published - same assertions for both channels; concurrent: both parties propose at the same time on one channel or on two channels of the same pair; without timeouts both hold the same state whose version is initial + number of successes and equals the last successful proposal; always: current transactions fully signed; early update: a version-1 update received while 1..2 channel openings are running is cached, handed to the handler exactly once when an opening finishes, answered once, and a rejected one is never accepted later",
 		Outside:    []string{"message loss and reordering on the bus", "more than two concurrent proposals", "the state between individual steps of a protocol run (only quiescent points are compared)", "schedules beyond the delay bound"},
 	})
 	return defs
